@@ -223,6 +223,17 @@ struct Reporter {
         if (args.out.empty()) {
             fputs(o.c_str(), stdout);
         } else {
+            auto dump = [&](const std::unordered_set<uint64_t> &set, const char *suffix) {
+                if (set.size() > 3000000) return;
+                std::vector<uint64_t> v(set.begin(), set.end());
+                FILE *sf = fopen((args.out + suffix).c_str(), "wb");
+                if (sf) {
+                    if (!v.empty()) fwrite(v.data(), 8, v.size(), sf);
+                    fclose(sf);
+                }
+            };
+            dump(states, ".states");
+            dump(distinct, ".distinct");
             std::string tmp = args.out + ".tmp";
             FILE *f = fopen(tmp.c_str(), "w");
             if (!f) { perror("open out"); exit(2); }
@@ -304,5 +315,115 @@ template <class F> Exc classify(F f, std::string *what = nullptr) {
     } catch (...) {
         return EX_UNKNOWN;
     }
+}
+} // namespace vf
+
+#include <sys/wait.h>
+namespace vf {
+// Runs f in a forked child so that a crash (signal, sanitizer abort) in one
+// cell does not take the enumeration down. f returns "" (oracle satisfied) or
+// a mismatch description. The child's stderr is captured.
+struct Isolated {
+    enum { OK, MISMATCH, CRASH } status = OK;
+    std::string text;    // mismatch description or crash report
+    std::string symptom; // short stable name of the crash kind
+};
+inline std::string crashSymptom(const std::string &err, int wstatus) {
+    auto has = [&](const char *s) { return err.find(s) != std::string::npos; };
+    if (has("Assertion") && has("failed")) return "glibcxx-assertion";
+    size_t p = err.find("ERROR: AddressSanitizer: ");
+    if (p != std::string::npos) {
+        size_t b = p + strlen("ERROR: AddressSanitizer: ");
+        size_t e = err.find_first_of(" \n", b);
+        return "asan-" + err.substr(b, e - b);
+    }
+    if (has("runtime error:")) return "ubsan-runtime-error";
+    if (has("Assertion") && has("failed")) return "glibcxx-assertion";
+    if (has("terminate called")) return "uncaught-exception";
+    if (WIFSIGNALED(wstatus)) return "signal-" + std::to_string(WTERMSIG(wstatus));
+    return "abnormal-exit-" + std::to_string(WIFEXITED(wstatus) ? WEXITSTATUS(wstatus) : -1);
+}
+template <class F> Isolated runIsolated(F f) {
+    Isolated r;
+    int pr[2], pe[2];
+    if (pipe(pr) || pipe(pe)) { perror("pipe"); exit(2); }
+    fflush(stdout);
+    fflush(stderr);
+    pid_t pid = fork();
+    if (pid < 0) { perror("fork"); exit(2); }
+    if (pid == 0) {
+        close(pr[0]);
+        close(pe[0]);
+        dup2(pe[1], 2);
+        std::string m;
+        try {
+            m = f();
+        } catch (std::exception &e) {
+            m = std::string("harness: unexpected exception escaped the cell: ") + e.what();
+        } catch (...) {
+            m = "harness: unexpected non-std exception escaped the cell";
+        }
+        if (!m.empty()) {
+            size_t off = 0;
+            while (off < m.size()) {
+                ssize_t w = ::write(pr[1], m.data() + off, m.size() - off);
+                if (w <= 0) break;
+                off += (size_t)w;
+            }
+        }
+        _exit(m.empty() ? 0 : 3);
+    }
+    close(pr[1]);
+    close(pe[1]);
+    auto slurp = [](int fd) {
+        std::string s;
+        char b[4096];
+        ssize_t n;
+        while ((n = read(fd, b, sizeof b)) > 0) {
+            if (s.size() < 200000) s.append(b, (size_t)n);
+        }
+        close(fd);
+        return s;
+    };
+    // read both pipes without blocking on one: stderr can be large, result small
+    std::string res, err;
+    {
+        // simple approach: poll-less, read result first (small), child writes it last;
+        // to avoid deadlock when stderr fills the pipe, drain stderr in a helper process-free way:
+        fcntl(pr[0], F_SETFL, O_NONBLOCK);
+        fcntl(pe[0], F_SETFL, O_NONBLOCK);
+        bool o1 = true, o2 = true;
+        char b[4096];
+        while (o1 || o2) {
+            bool progress = false;
+            if (o1) {
+                ssize_t n = read(pr[0], b, sizeof b);
+                if (n > 0) { res.append(b, (size_t)n); progress = true; }
+                else if (n == 0) { o1 = false; progress = true; }
+            }
+            if (o2) {
+                ssize_t n = read(pe[0], b, sizeof b);
+                if (n > 0) { if (err.size() < 200000) err.append(b, (size_t)n); progress = true; }
+                else if (n == 0) { o2 = false; progress = true; }
+            }
+            if (!progress) usleep(200);
+        }
+        close(pr[0]);
+        close(pe[0]);
+    }
+    (void)slurp;
+    int st = 0;
+    waitpid(pid, &st, 0);
+    if (WIFEXITED(st) && WEXITSTATUS(st) == 0) {
+        r.status = Isolated::OK;
+    } else if (WIFEXITED(st) && WEXITSTATUS(st) == 3) {
+        r.status = Isolated::MISMATCH;
+        r.text = res;
+    } else {
+        r.status = Isolated::CRASH;
+        r.symptom = crashSymptom(err, st);
+        r.text = err.size() > 2500 ? err.substr(0, 2500) : err;
+    }
+    return r;
 }
 } // namespace vf
